@@ -10,6 +10,7 @@
 (*             directory outside the build directory, deletes, moves back   *)
 (*   rollback  a failing run restores the core data it found                *)
 (*   backup    coredata.dat.prev is a copy / coredata.dat is renamed to it  *)
+(*   ninjaTrunc the generator truncates build.ninja~ before it writes       *)
 (*   piped     a machine file was given as a pipe: meson-private holds the *)
 (*             only copy; keepsIni: `--wipe` leaves that copy in place      *)
 (*   usesM/E   the directory holds values set by a machine file / taken    *)
@@ -50,11 +51,11 @@ Designs ==
     { d \in [kind : Kinds, hist : {"fresh", "partial", "configured", "configured-prev"},
              coreP : Protocols, cmdlP : Protocols, ninjaP : Protocols, sync : BOOLEAN,
              order : Orders, wipeKeeps : BOOLEAN, rollback : BOOLEAN, ninja : BOOLEAN, chunks : 1..MaxChunks,
-             backup : {"copy", "rename"}, usesM : BOOLEAN, usesE : BOOLEAN, piped : BOOLEAN, keepsIni : BOOLEAN] :
+             backup : {"copy", "rename"}, usesM : BOOLEAN, usesE : BOOLEAN, piped : BOOLEAN, keepsIni : BOOLEAN, ninjaTrunc : BOOLEAN] :
         /\ d.kind \in {"setup", "setup-fail"} <=> d.hist \in {"fresh", "partial"}
         /\ d.kind # "wipe" => d.wipeKeeps                         \* irrelevant dimensions are fixed
         /\ d.kind \notin {"setup-fail", "reconfigure-fail"} => d.rollback
-        /\ ~d.ninja => d.ninjaP = "atomic"
+        /\ ~d.ninja => (d.ninjaP = "atomic" /\ d.ninjaTrunc)
         /\ d.ninja => (d.order = "core-first" /\ ~d.usesE)       \* build.ninja plays no part in recovery
         /\ d.kind = "configure" => (~d.ninja /\ d.order # "core-last")
         /\ d.hist \in {"fresh", "partial"} => d.backup = "copy"   \* nothing to back up
@@ -65,7 +66,7 @@ Designs ==
         /\ d.usesE => d.kind \in {"reconfigure", "configure", "reconfigure-fail"}
         /\ Family = "legacy" => (/\ d.coreP = "atomic" /\ d.cmdlP = "inplace" /\ d.ninjaP = "atomic" /\ d.sync
                                  /\ d.order = (IF d.kind = "configure" THEN "cmdline-first" ELSE "core-first")
-                                 /\ (d.kind = "wipe" => ~d.wipeKeeps) /\ d.rollback /\ d.backup = "copy" /\ ~d.piped) }
+                                 /\ (d.kind = "wipe" => ~d.wipeKeeps) /\ d.rollback /\ d.backup = "copy" /\ ~d.piped /\ d.ninjaTrunc) }
 
 \* backup by rename leaves a window without coredata.dat; a wipe removes coredata.dat by design, so a
 \* directory whose values came from machine files survives a killed wipe only with a first run that
@@ -73,6 +74,7 @@ Designs ==
 SafeDesign(d) == /\ d.coreP = "atomic" /\ d.cmdlP = "atomic" /\ d.wipeKeeps /\ d.rollback /\ d.backup = "copy"
                  /\ (d.kind = "wipe" /\ d.usesM) => FirstRunReadsCmdline
                  /\ d.keepsIni
+                 /\ d.ninjaTrunc
 
 -----------------------------------------------------------------------------
 W(f, n) == [j \in 1..n |-> Op("write", f, "")]
@@ -82,8 +84,11 @@ AtomicW(f, tmp, n, sync) == <<Op("creat", tmp, "")>> \o W(tmp, n)
                             \o <<Op("close", tmp, ""), Op("rename", tmp, f)>>
 WriteP(p, f, tmp, n, sync) == IF p = "atomic" THEN AtomicW(f, tmp, n, sync) ELSE InPlace(f, n)
 \* the generator of build.ninja writes a header, closes the file and opens it again for appending
-TwoSessions(f, n) == <<Op("creat", f, ""), Op("write", f, ""), Op("close", f, ""), Op("append", f, "")>> \o W(f, n) \o <<Op("close", f, "")>>
-WriteNinja(p, n) == IF p = "atomic" THEN TwoSessions(NinjaTmp, n) \o <<Op("rename", NinjaTmp, Ninja)>> ELSE TwoSessions(Ninja, n)
+\* (trunc = FALSE: also the first session opens for appending - nothing truncates a stale file)
+TwoSessions(f, n, trunc) == <<Op(IF trunc THEN "creat" ELSE "append", f, ""), Op("write", f, ""), Op("close", f, ""), Op("append", f, "")>>
+                            \o W(f, n) \o <<Op("close", f, "")>>
+WriteNinja(p, n, trunc) == IF p = "atomic" THEN TwoSessions(NinjaTmp, n, trunc) \o <<Op("rename", NinjaTmp, Ninja)>>
+                           ELSE TwoSessions(Ninja, n, trunc)
 CopyF(src, dst) == <<Op("read", src, ""), Op("creat", dst, ""), Op("copy", dst, src), Op("close", dst, ""), Op("close", src, "")>>
 
 SaveCore(d, hasCore) ==
@@ -94,7 +99,7 @@ SaveCore(d, hasCore) ==
          ELSE <<Op("rename", Core, CorePrev)>> \o InPlace(Core, d.chunks)
     ELSE (IF hasCore THEN CopyF(Core, CorePrev) ELSE <<>>) \o WriteP(d.coreP, Core, CoreTmp, d.chunks, d.sync)
 Backend(d)  == InPlace(Install, 1)
-               \o (IF d.ninja THEN WriteNinja(d.ninjaP, d.chunks) ELSE <<>>)
+               \o (IF d.ninja THEN WriteNinja(d.ninjaP, d.chunks, d.ninjaTrunc) ELSE <<>>)
 SaveBuild(d) == InPlace(BuildDat, d.chunks)
 SaveCmdl(d)  == WriteP(d.cmdlP, Cmdl, CmdlTmp, 1, FALSE)
 Intro(d)     == AtomicW(IntroOpts, IntroTmp, d.chunks, FALSE)
@@ -154,6 +159,8 @@ PreOf(d) ==
 ScriptOf(d) ==
     [design |-> d, kind |-> d.kind, fresh |-> d.hist \in {"fresh", "partial"},
      failed |-> d.kind \in {"setup-fail", "reconfigure-fail"}, usesM |-> d.usesM, usesE |-> d.usesE, pre |-> PreOf(d),
+     \* the follow-up is a configure run of the same design
+     recover |-> Configure(d, TRUE),
      ops |-> CASE d.kind = "setup"       -> (IF d.hist = "fresh" THEN Dirs ELSE <<Op("mkdir", Info, "")>>)
                                             \o (IF d.piped THEN InPlace(MFile, 1) ELSE <<>>) \o Configure(d, FALSE)
                [] d.kind = "setup-fail"  -> (IF d.hist = "fresh" THEN Dirs ELSE <<Op("mkdir", Info, "")>>) \o FailingConfigure(d, FALSE)
@@ -173,6 +180,9 @@ design == sc.design
 SafeIsRecoverable    == (SafeDesign(design) /\ phase = "recovered") => out.ok
 SafeIsOldOrNew       == (SafeDesign(design) /\ phase = "recovered" /\ out.ok) => ValueAllowed(sc, out)
 \* the protocol laws hold for the designs that claim them
+\* the follow-up of a safe design leaves no state file with new data appended to stale data; a design
+\* that never truncates its temporary build.ninja does (checked as NoGarbledManifest, expected to fail)
+SafeRecoveryIsClean  == (SafeDesign(design) /\ phase = "recovered" /\ out.ok) => RecoveryClean(sc, fs)
 AtomicCoreNeverTorn  == design.coreP = "atomic" => CoreNeverTorn(fs)
 AtomicNinjaNeverTorn == design.ninjaP = "atomic" => NinjaNeverTorn(fs)
 SyncedCoreDurable    == (design.coreP = "atomic" /\ design.sync) => CoreDurable(fs)
@@ -191,6 +201,7 @@ VerdictAgrees        ==
 \* expected to FAIL for the legacy family: some crash state bricks the directory / loses values
 NoBrick      == phase = "recovered" => out.ok
 NoLostValues == (phase = "recovered" /\ out.ok) => ValueAllowed(sc, out)
+NoGarbledManifest == (phase = "recovered" /\ out.ok /\ design.coreP = "atomic" /\ design.ninjaP = "atomic") => RecoveryClean(sc, fs)
 
 \* statistics for the harness
 Stats == TLCGet("stats").diameter >= 0 /\ PrintT(<<"designs", Cardinality(Designs), "safe", Cardinality({d \in Designs : SafeDesign(d)})>>)
